@@ -26,7 +26,14 @@ HOSTILE = [None, True, False, 0, 1, -1, 2**63, -(2**63), 10**400, 1.5, 1e308, 5e
            # "arbitrary text": strings that str.isdigit()/isnumeric()/float()/int() treat differently from plain digits
            "\u00b2", "\u2460\u2461", "1\u00b3", "\u0661\u0662\u0663", "\uff11\uff12", "1_000", " 12 ", "+5", "1e5", "0x10",
            "\u221e", "nan", "inf", "-inf", "Infinity", "NaN", "9" * 5000, "\u00a0", "\x00", "-0", "1.", ".5", "null", "true",
-           "1735689600", "1735689600.5", "\u0967\u0968", "12\u0660", "\u2160", "\u00bd"]
+           "1735689600", "1735689600.5", "\u0967\u0968", "12\u0660", "\u2160", "\u00bd",
+           # collections whose members are themselves lists / objects (unhashable), in every position
+           [[], "internal"], ["internal", []], [{"name": "ops"}], [{"name": "ops"}, "ops"], ["ops", ["legacy"]], [["doc", "read"]],
+           [[1], [1.0], {"k": [None]}]]
+# collections with nested list / object members, as values of the request and as literals of a policy
+NESTED_COLS = [[[], "internal"], ["internal", []], [{"name": "ops"}], [{"name": "ops"}, "ops"], ["ops", {"name": "ops"}],
+               ["ops", ["legacy"]], [["legacy"], "ops"], [["doc", "read"]], [["doc", "read"], ["doc", "write"]], [[1], [1.0]],
+               [{}], [[]], ["a", {"k": [1, {"z": None}]}, "ops"], ["ops"], ["ops", "internal"], []]
 
 ATTR_PATHS = ["context.a", "context.b", "subject.id", "subject.roles", "subject.attrs.x", "resource.id", "resource.type",
               "resource.attrs.k", "action", "context.a.b.c", "nokey", "context.", ""]
@@ -47,7 +54,7 @@ def g_numexpr(rng):
 def g_container(rng):
     r = rng.random()
     if r < 0.3:
-        return rng.choice([[], [1, "a"], ["admin", "staff"], [None], [[1]]])
+        return gen.fresh(rng.choice([[], [1, "a"], ["admin", "staff"], [None], [[1]]] + NESTED_COLS[:10]))
     if r < 0.45:
         return rng.choice(["abc", ""])
     if r < 0.55:
@@ -380,6 +387,19 @@ def check_cases(chk, cases, replay=False):
                 chk.corr_break("Decision differs from the model on a schema-valid policy", case, impl=d, model=m, theorems=["c06_total", "C01"])
 
 
+def nested_case(cond, values):
+    doc = {"algorithm": "first-applicable", "rules": [
+        {"id": "h", "effect": "permit", "actions": ["read"], "resource": {"type": "doc"}, "condition": cond},
+        {"id": "fallback", "effect": "deny", "actions": ["*"], "resource": {"type": "*"}}]}
+    req = {"subject": {"id": "u", "roles": [], "attrs": {}}, "action": "read",
+           "resource": {"type": "doc", "id": "1", "attrs": {}}, "context": {}}
+    for path, v in values.items():
+        parts = path.split(".")
+        holder = req[parts[0]] if parts[0] == "context" else req[parts[0]]["attrs"]
+        holder[parts[-1]] = gen.fresh(v)
+    return {"fam": "nested", "doc": doc, "reqs": [req]}
+
+
 def gen_cases(chk):
     rng = chk.rng
     quick = chk.tier == "quick"
@@ -397,9 +417,14 @@ def gen_cases(chk):
             {"id": "d", "effect": "permit", "actions": ["read"], "resource": {"type": "doc"}, "condition": deep_cond(depth)}]},
             "reqs": requests(rng, 1)})
     # hostile operand sweep: every time/order operator against every hostile value
-    for op in ("before", "after", "<", ">=", "startsWith", "hasAny", "in", "contains", "between"):
+    for op in ("before", "after", "<", ">=", "startsWith", "hasAny", "hasAll", "in", "contains", "between"):
         for v in HOSTILE:
             cond = {op: [{"attr": "context.a"}, {"attr": "context.b"}]}
+            other = rng.choice(HOSTILE)
+            if op in ("hasAny", "hasAll") and rng.random() < 0.7:
+                other = rng.choice(NESTED_COLS)
+                if rng.random() < 0.5:       # the hostile value is the second operand
+                    cond = {op: [{"attr": "context.b"}, {"attr": "context.a"}]}
             if op == "in":
                 cond = {op: ["a", {"attr": "context.a"}]}
             if op == "contains":
@@ -410,8 +435,27 @@ def gen_cases(chk):
                 {"id": "h", "effect": "permit", "actions": ["read"], "resource": {"type": "doc"}, "condition": cond},
                 {"id": "fallback", "effect": "deny", "actions": ["*"], "resource": {"type": "*"}}]}
             req = {"subject": {"id": "u", "roles": [], "attrs": {}}, "action": "read",
-                   "resource": {"type": "doc", "id": "1", "attrs": {}}, "context": {"a": gen.fresh(v), "b": gen.fresh(rng.choice(HOSTILE))}}
+                   "resource": {"type": "doc", "id": "1", "attrs": {}}, "context": {"a": gen.fresh(v), "b": gen.fresh(other)}}
             cases.append({"fam": "hostile", "doc": doc, "reqs": [req]})
+    # collections with nested list / object members: hasAll / hasAny over every pair (request value x request value,
+    # request value x policy literal, literal x request value), in / contains with such a haystack
+    where = ["subject.attrs.groups", "resource.attrs.labels", "context.scopes"]
+    n = 0
+    for i, a in enumerate(NESTED_COLS):
+        for j, b in enumerate(NESTED_COLS):
+            n += 1
+            if quick and (i + j + chk.seed) % 4 and i != j:
+                continue
+            op = ("hasAll", "hasAny")[n % 2]
+            pa, pb = where[n % 3], where[(n + 1) % 3]
+            side = n // 2 % 3
+            cond = {op: [{"attr": pa} if side != 1 else gen.fresh(a), {"attr": pb} if side != 2 else gen.fresh(b)]}
+            cases.append(nested_case(cond, {pa: a, pb: b}))
+    for i, c in enumerate(NESTED_COLS):
+        for needle in ("ops", 1, "internal"):
+            pc = where[i % 3]
+            cases.append(nested_case({"in": [needle, {"attr": pc} if i % 2 else gen.fresh(c)]}, {pc: c}))
+            cases.append(nested_case({"contains": [gen.fresh(c) if i % 2 else {"attr": pc}, needle]}, {pc: c}))
     # logic: every and/or over pairs of {true, false, ill-typed, holds, fails} leaves, bare, negated, and nested once
     ILL = {"<": [{"attr": "context.a"}, 3]}
     leaves = [True, False, ILL, {"==": [1, 1]}, {"==": [1, 2]}, {">": [{"attr": "context.missing"}, 3]}]
